@@ -6,9 +6,34 @@ import DimModel.Spec.C01
 import DimModel.Spec.C02
 import DimModel.Spec.C07
 import DimModel.Lib.Init
+import DimModel.Lib.Reshape
 open Lean
 namespace DimModel.Driver
 open DimModel.Codec
+
+def optKeys (j : Json) : P (Option (List DimKey)) := optOf (listOf dimKey) j
+
+/-- one step of an operation chain applied to an array (C10, C11, C05 histories) -/
+def applyStep (a : DimArray Cell) (st : Json) : P (Except Err (DimArray Cell)) := do
+  match (← str (← fld st "fn")) with
+  | "transpose" => do pure (Lib.transpose a (← optKeys (fldD st "dims" Json.null)))
+  | "swapaxes" => do pure (Lib.swapaxes a (← dimKey (← fld st "a1")) (← dimKey (← fld st "a2")))
+  | "rollaxis" => do pure (Lib.rollaxis a (← dimKey (← fld st "axis")) (← int (fldD st "start" (Json.num 0))))
+  | "newaxis" => do
+    pure (Lib.newaxis a (← str (← fld st "name")) (← int (fldD st "pos" (Json.num 0))) (← optOf axis (fldD st "values" Json.null)))
+  | "squeeze" => do pure (Lib.squeeze a (← optOf dimKey (fldD st "axis" Json.null)))
+  | "repeat" => do pure (Lib.repeatAxis a (← axis (← fld st "values")) (← dimKey (← fld st "axis")))
+  | "broadcast" => do pure (Lib.broadcast a (← listOf axis (← fld st "target")))
+  | "flatten" => do pure (Lib.flatten a (← listOf str (← fld st "dims")) (← optOf nat (fldD st "insert" Json.null)))
+  | "unflatten" => pure (.ok (Lib.unflattenAll a))
+  | "reshape" => do pure (Lib.reshape a (← listOf str (← fld st "newdims")))
+  | "take" => do
+    pure (Lib.take a (← userIndex (← fld st "index")) (← indexCfg (fldD st "cfg" (Json.mkObj []))))
+  | "sort_axis" => do pure (Lib.sortAxis a (← dimKey (← fld st "axis")))
+  | "reindex" => do
+    pure (Lib.reindexAxis a (← dimKey (← fld st "axis")) (← listOf label (← fld st "labels")) (← kind (← fld st "newkind"))
+      Cell.nan .f false none)
+  | f => throw s!"unknown step {f}"
 
 /-- handlers: request → answer fields -/
 def handle (op : String) (req : Json) : P (List (String × Json)) := do
@@ -85,6 +110,26 @@ def handle (op : String) (req : Json) : P (List (String × Json)) := do
     let vs ← arr (← fld req "variants")
     let rs ← vs.toList.mapM one
     pure [("lib", Json.arr rs.toArray)]
+  | "chain" => do
+    let as ← arrays req
+    let a ← match as with | a :: _ => pure a | [] => throw "no array"
+    let steps ← arr (← fld req "steps")
+    let mut cur : Except Err (DimArray Cell) := .ok a
+    let mut trace : List Json := []
+    for st in steps.toList do
+      match cur with
+      | .ok x =>
+        cur ← applyStep x st
+        trace := trace ++ [encExcept (fun (y : DimArray Cell) => Json.mkObj [("dims", Json.arr (y.dims.map Json.str).toArray), ("shape", encNats y.vals.shape)]) cur]
+      | .error _ => pure ()
+    pure [("lib", encExcept encDimArray cur), ("trace", Json.arr trace.toArray)]
+  | "multi" => do
+    -- functions of several arrays returning several arrays
+    let as ← arrays req
+    match (← str (← fld req "fn")) with
+    | "broadcast_arrays" => pure [("lib", encExcept (fun l => Json.arr (l.map encDimArray).toArray) (Lib.broadcastArrays as))]
+    | "align_dims" => pure [("lib", encExcept (fun l => Json.arr (l.map encDimArray).toArray) (Lib.alignDims as))]
+    | f => throw s!"unknown multi fn {f}"
   | "union" => do
     let a ← axis (← fld req "a")
     let b ← axis (← fld req "b")
